@@ -291,7 +291,9 @@ func (ci *ConstructorInvoker) Invoke(
 	// Check for error return
 	if info.HasErrorReturn && len(results) > 0 {
 		lastResult := results[len(results)-1]
-		if !lastResult.IsNil() {
+		// The last result may be declared with a concrete type that implements error;
+		// only nilable kinds can be nil, any other value is an error
+		if !isNilable(lastResult.Kind()) || !lastResult.IsNil() {
 			if err, ok := lastResult.Interface().(error); ok {
 				return nil, fmt.Errorf("constructor error: %w", err)
 			}
@@ -299,6 +301,15 @@ func (ci *ConstructorInvoker) Invoke(
 	}
 
 	return results, nil
+}
+
+// isNilable reports whether reflect.Value.IsNil may be called on a value of this kind.
+func isNilable(kind reflect.Kind) bool {
+	switch kind {
+	case reflect.Chan, reflect.Func, reflect.Interface, reflect.Map, reflect.Pointer, reflect.Slice, reflect.UnsafePointer:
+		return true
+	}
+	return false
 }
 
 // invokeWithRecovery calls the constructor and recovers from any panics.
